@@ -57,6 +57,11 @@ def draw_case(rng: numpy.random.Generator, nq=None, nat=None, low_t: bool = True
         t = t[rng.permutation(nt)]
         if nt >= 3 and rng.random() < 0.3:
             t[-1] = 0.0
+    if rng.random() < 0.2:
+        # integer-typed temperature array (what an integer DT produces); distinct integral values
+        ti = numpy.unique(numpy.rint(t).astype(int))
+        if len(ti) == nt:
+            t = numpy.rint(t).astype(int)
     freq = rng.uniform(30.0, 1500.0, (ntv, nq, np_))
     if gamma_zero is None:
         gamma_zero = rng.random() < 0.7
